@@ -477,6 +477,11 @@ class Adapter(object):
       if back != args["msg"]:
         return {"ok": False, "diff": _first_diff(args["msg"], back)}
       return {"ok": True}
+    if a == "Receive":
+      # bytes from a peer: there is no original object, only what the decoder makes of them
+      self.kind, self.tag = args["kind"], args["tag"]
+      self.obj = self.obj2 = self.own = None
+      return {"ok": True}
     if a == "ChoosePartial":
       # (driver only) the constructor's defaults with some fields set: returns the abstract value
       k = args["kind"]
@@ -507,13 +512,23 @@ class Adapter(object):
       off, o2 = c.decode(self.kind, buf, len(pre), len(wire), self.obj)
       self.obj2 = o2
       try:
-        eq = bool(o2 == self.obj) and not bool(o2 != self.obj)
+        # (received bytes: no original to compare with; the object must at least equal itself)
+        ref = self.obj if self.obj is not None else o2
+        eq = bool(o2 == ref) and not bool(o2 != ref)
       except Exception as e:        # comparison itself fails
         eq = "exception:" + type(e).__name__
       return {"consumed": off - len(pre), "eq": eq, "val": c.project(o2, self.kind, consts=True)}
     if a == "Reencode":
       b = c.pack(self.kind, self.obj2)
-      return {"len": c.length(self.kind, self.obj2), "wire": list(b), "free": []}
+      n = c.length(self.kind, self.obj2)
+      # rt: the re-encoding decodes, completely, to an object equal to the one it was made from
+      try:
+        off, o3 = c.decode(self.kind, b, 0, len(b), self.obj2)
+        rt = off == len(b) and bool(o3 == self.obj2) and not bool(o3 != self.obj2) and \
+            c.project(o3, self.kind, consts=True) == c.project(self.obj2, self.kind, consts=True)
+      except Exception as e:
+        rt = "exception:" + type(e).__name__
+      return {"len": n, "wire": list(b), "free": [], "rt": rt}
     raise ValueError(a)
 
   def normalize(self, obs, exp):
@@ -535,6 +550,8 @@ class Adapter(object):
     """classifies a mismatch: which action on which kind of object failed how, and whether the object
     had been changed after its first encoding (stale-state defects)"""
     sig = {"action": st["a"], "kind": self.kind, "modified": self.modified}
+    if self.obj is None and st["a"] != "Choose":
+      sig["received"] = True
     exp = st["exp"]
     if isinstance(obs, dict) and "EXC" in obs:
       sig["observed"] = "exception:" + obs["EXC"]
@@ -543,6 +560,8 @@ class Adapter(object):
       if obs.get("wire") != exp.get("wire"):
         ow, ew = obs.get("wire"), exp.get("wire")
         sig["observed"] = "wire-length" if isinstance(ow, list) and len(ow) != len(ew) else "wire-bytes"
+      elif obs.get("rt") is not True and "rt" in exp:
+        sig["observed"] = "redecode=%s" % (obs.get("rt"),)
       else:
         sig["observed"] = "len()"
     elif st["a"] == "Decode":
